@@ -1,7 +1,7 @@
 from common import WORLD_TB, WORLD_ASSUME, SCEN_RULE
 
 PROP = {
-    "suites": ["scn-chain", "scn-mount", "scn-mixed", "scn-struct"],
+    "suites": ["scn-directed", "scn-chain", "scn-mount", "scn-mixed", "scn-struct"],
     "lean_modules": ["Lc.Props.C08"],
     "leanchecker": True,
     "trusted_base": WORLD_TB + [
